@@ -8,5 +8,6 @@ CONSTANTS
   MaxBlockSize = 7788
   TimeoutPerChunk = TRUE
   SerErrorsFatal = TRUE
+  VersionSkew = 0
   Streams <- StreamsFull
 INVARIANTS Emit
